@@ -2,7 +2,7 @@
 # tools/trymut.sh <patch.diff> <prop[,prop...]> : apply a seeded change to a scratch
 # worktree of /repo HEAD (never to /repo itself), run the named checks on it, remove it.
 set -u
-PATCH=$1; PROPS=$2
+PATCH=$(realpath "$1"); PROPS=$2
 D=$(mktemp -d /tmp/mutrun.XXXXXX)
 git -C /repo worktree add -q --detach "$D/wt" HEAD || exit 3
 if ! git -C "$D/wt" apply "$PATCH" 2>/dev/null; then
